@@ -31,8 +31,9 @@ class Generator:
     real code: there `backend` is the real numpy and picks / draws come from the
     counterexample (`source` dict) instead of the solver."""
 
-    def __init__(self, stream, token=None, backend=None, source=None):
+    def __init__(self, stream, token=None, backend=None, source=None, prefix=None):
         self.stream = stream
+        self.prefix = prefix or stream
         self.token = token
         self.count = 0
         self.npicks = 0
@@ -57,7 +58,7 @@ class Generator:
             E.cur().draws.append(dict(stream=self.stream, method=method, site=_callsite(), params=params))
 
     def _one(self, kind, positive=False, unit=False):
-        name = "%s.%s%d" % (self.stream, kind, self.ndraws)
+        name = "%s.%s%d" % (self.prefix, kind, self.ndraws)
         self.ndraws += 1
         if self.concrete:
             v = self.source.get(name)
@@ -117,7 +118,7 @@ class Generator:
             raise ValueError("a must be non-empty")
         if n == 1:
             return 0
-        name = "%s.pick%d" % (self.stream, self.npicks)
+        name = "%s.pick%d" % (self.prefix, self.npicks)
         self.npicks += 1
         if self.concrete:
             v = int(self.source.get(name, 0))
@@ -235,14 +236,23 @@ class SeedSequence:
         return [("state", self.entropy, i) for i in range(n)]
 
 
+def _gen_prefix(stream):
+    """generators created by the code under test get distinct symbol-name prefixes (E0, E1, seeded0, ...)"""
+    eng = E.CUR
+    n = getattr(eng, "gen_count", 0) if eng is not None else 0
+    if eng is not None:
+        eng.gen_count = n + 1
+    return "%s%d" % (stream, n)
+
+
 def default_rng(seed=None):
     if seed is None:
-        return Generator("E")
+        return Generator("E", prefix=_gen_prefix("E"))
     if isinstance(seed, SeedChild):
-        return Generator("seeded", seed.token)
+        return Generator("seeded", seed.token, prefix=_gen_prefix("seeded"))
     if isinstance(seed, Generator):
         return seed
-    return Generator("seeded", ("seed", seed))
+    return Generator("seeded", ("seed", seed), prefix=_gen_prefix("seeded"))
 
 
 GLOBAL_SEED_CALLS = []
